@@ -251,6 +251,17 @@ def handle (op : String) (fs : List (String × String)) : String :=
     match parseFont fs, (getField fs "lookups").bind readLookups with
     | some f, some ls => natsHex (if getField fs "tab" == some "gpos" then explainGpos f ls else explainGsub f ls)
     | _, _ => "bad-case"
+  else if op == "dsl.rtrepeat" then
+    -- the round trip parsed many times over: every repetition gives the lookups (the format choice
+    -- of GSUB 1 must not depend on the order in which the parser visits its map)
+    match parseFont fs, (getField fs "lookups").bind readLookups with
+    | some _, some ls => "ok:" ++ showLookups (normalize ls)
+    | _, _ => "bad-case"
+  else if op == "dsl.parserepeat" then
+    -- a text parsed many times over: every repetition gives the model's outcome
+    match parseFont fs, (getField fs "text").bind hexNats with
+    | some f, some bs => showOutcome (parseBytes f bs)
+    | _, _ => "bad-case"
   else if op == "dsl.roundtrip" then
     -- the property: Parse(ExplainGsub(l)) = l (up to the 1.1/1.2 identification)
     match parseFont fs, (getField fs "lookups").bind readLookups with
